@@ -11,7 +11,8 @@ Inductive fdesc := FD (is_unlock : bool) (backend : nat) (k : key) (in_body : bo
 Inductive case :=
 | CFault (md : mode) (U : list key) (now : Z) (init : list (list (key * val)))
          (cs : list (nat * bcmd)) (used : list nat) (order : list (list key)) (flts : list nat) (fds : list fdesc)
-         (raised stuck : bool) (locks_left : list (list key)) (data : list (list (option val))).
+         (raised stuck : bool) (locks_left : list (list key)) (data : list (list (option val)))
+         (lock_life : list (list Z)).      (* remaining lifetime (ticks) of every lock key left behind, per backend *)
 
 Definition init_b (now : Z) (kvs : list (key * val)) : txb :=
   txb0 (fold_left (fun m e => s_write m now (fst e) (snd e) 0) kvs empty).
@@ -21,15 +22,18 @@ Definition locks_in (md : mode) (U : list key) (now : Z) (x : txb) : list key :=
   filter (fun lk => isSome (s_look (bB x) now lk)) (lock_universe md U).
 Definition data_of (U : list key) (now : Z) (x : txb) : list (option val) := map (fun k => s_get (bB x) now k) U.
 
+Fixpoint insert_z (x : Z) (l : list Z) : list Z := match l with [] => [x] | y :: r => if x <=? y then x :: l else y :: insert_z x r end.
+Definition sort_z (l : list Z) := fold_right insert_z [] l.
 Definition same_set (a b : list key) : bool := forallb (fun x => mems x b) a && forallb (fun x => mems x a) b.
 Definition ldata_eqb := list_eqb (list_eqb (option_eqb val_eqb)).
 
 Definition judge (c : case) : verdict :=
   match c with
-  | CFault md U now init cs used order flts fds raised stuck locks_left data =>
+  | CFault md U now init cs used order flts fds raised stuck locks_left data lock_life =>
       let w0 := {| bks := map (init_b now) init; pos := 0%nat; faults := flts; lorder := order |} in
       let '(w, mraised, mstuck) := block md U now w0 used cs in
-      let agree := Bool.eqb mraised raised && Bool.eqb mstuck stuck &&
+      let life_of (x : txb) := map (fun lk => match s_look (bB x) now lk with Some (Some d, _) => d - now | _ => -1 end) (locks_in md U now x) in
+      let agree := list_eqb (fun a b => list_eqb Z.eqb (sort_z a) (sort_z b)) (map life_of (bks w)) lock_life && Bool.eqb mraised raised && Bool.eqb mstuck stuck &&
                    list_eqb same_set (map (locks_in md U now) (bks w)) locks_left &&
                    ldata_eqb (map (data_of U now) (bks w)) data in
       let ok :=
@@ -38,6 +42,8 @@ Definition judge (c : case) : verdict :=
         forallb (fun bl => forallb (fun lk => existsb (fun d => match d with FD true b k _ => Nat.eqb b (fst bl) && String.eqb k lk | _ => false end) fds)
                                    (snd bl))
                 (combine (seq 0 (length locks_left)) locks_left) &&
+        (* ... and it lapses by itself after the transaction timeout *)
+        forallb (forallb (fun l => (0 <? l) && (l <=? LOCK_TTL))) lock_life &&
         (* a failure inside the body applies none of the writes *)
         (if existsb (fun d => match d with FD _ _ _ true => true | _ => false end) fds
          then ldata_eqb (map (data_of U now) (map (init_b now) init)) data else true) in
@@ -45,7 +51,7 @@ Definition judge (c : case) : verdict :=
   end.
 Definition explain (c : case) :=
   match c with
-  | CFault md U now init cs used order flts _ _ _ _ _ =>
+  | CFault md U now init cs used order flts _ _ _ _ _ _ =>
       let w0 := {| bks := map (init_b now) init; pos := 0%nat; faults := flts; lorder := order |} in
       let '(w, r, s) := block md U now w0 used cs in (r, s, map (locks_in md U now) (bks w), map (data_of U now) (bks w))
   end.
